@@ -16,11 +16,11 @@ open Heap (refNames addSelf)
 
 inductive VR (cx : Cx) : List DName → Node → Node → List DName → Prop
   -- exact steps
-  | stepE {D a m b} : EqE a m → VR cx D (.e m) (.e b) D → VR cx D (.e a) (.e b) D
-  | stepT {D a m b} : EqT a m → VR cx D (.t m) (.t b) D → VR cx D (.t a) (.t b) D
-  | stepS {D a m b} : EqS a m → VR cx D (.s m) (.s b) D → VR cx D (.s a) (.s b) D
-  | stepL {D a m b} : EqL a m → VR cx D (.l m) (.l b) D → VR cx D (.l a) (.l b) D
-  | stepB {D a m b D'} : EqB a m → VR cx D (.b m) (.b b) D' → VR cx D (.b a) (.b b) D'
+  | stepE {D a m b} : LeE cx.upto a m → VR cx D (.e m) (.e b) D → VR cx D (.e a) (.e b) D
+  | stepT {D a m b} : LeT cx.upto a m → VR cx D (.t m) (.t b) D → VR cx D (.t a) (.t b) D
+  | stepS {D a m b} : LeS cx.upto a m → VR cx D (.s m) (.s b) D → VR cx D (.s a) (.s b) D
+  | stepL {D a m b} : LeL cx.upto a m → VR cx D (.l m) (.l b) D → VR cx D (.l a) (.l b) D
+  | stepB {D a m b D'} : LeB cx.upto a m → VR cx D (.b m) (.b b) D' → VR cx D (.b a) (.b b) D'
   -- generic sound leaves
   | genE {D a b} : (∀ Q, QRefl Q → SoundE Q cx D a b) → VR cx D (.e a) (.e b) D
   | genT {D a b} : (∀ Q, QRefl Q → SoundT Q cx D a b) → VR cx D (.t a) (.t b) D
